@@ -1111,6 +1111,22 @@ def key_source_dimension(W, fam, n):
     return out
 
 
+def two_database_timeouts(W):
+    """Two filters on ONE Redis server, in different databases, with different timeouts (and the two orders of naming them):
+    each filter's sessions live by that filter's own limits."""
+    res = []
+    long = {"mode": "honest", "rt": True, "expiresIn": 100000, "idLife": 100000}
+    for order in ("strictFirst", "relaxedFirst"):
+        strict = dict(F1, store="redis", abs=0, idle=100)
+        relaxed = dict(F2, store="redis#1", abs=1000, idle=0)
+        fl = [strict, relaxed] if order == "strictFirst" else [relaxed, strict]
+        steps = [browse("b1", "f1", 1, ans=long), browse("b2", "f2", 2, ans=long), {"op": "tick", "d": 50}, app("b1", "f1", url=1, ans=long), app("b2", "f2", url=2, ans=long),
+                 {"op": "tick", "d": 150}, app("b1", "f1", url=1, ans=long), app("b2", "f2", url=2, ans=long),      # f1's idle limit has passed, f2 is well inside its absolute one
+                 {"op": "tick", "d": 900}, app("b2", "f2", url=2, ans=long)]                                          # ... and now past it
+        res.append({"id": "c10sys/twoDatabases/%s" % order, "cfg": {"filters": fl}, "steps": steps, "tags": ["timeouts"]})
+    return res
+
+
 def lifetimes_family(W):
     """Sessions whose tokens run out in unusual (legal) ways: no refresh token and everything expired; an ID token that outlives
     the access token (or the reverse) with the provider failing - in every way it can - exactly when the one that ran out is to
@@ -1494,7 +1510,7 @@ def c10(W, replay=None):
     traces = len(scen)
     if not replay:
         # system level: through the real factory wiring (PreRun) and ExtAuthZFilter.Check with the virtual clock
-        sys_sc = timeout_system_scenarios(W) + tamper_family(W)
+        sys_sc = timeout_system_scenarios(W) + tamper_family(W) + two_database_timeouts(W)
         index.update({s["id"]: s for s in sys_sc})
         tr2 = W.drive("TestSys", sys_sc, "sys")
         vs.append(W.validate(tr2, "sys"))
